@@ -62,7 +62,7 @@ struct DiskEngine : Engine {
         bool pw = cfg.chance(0.55); int dlt = pw ? dlts_pw[cfg.below(6)] : dlts_ref[cfg.below(7)];
         const int bufs[6] = { -1, -1, 0, 64, 512, 4096 };
         size_t nframes = (size_t)cfg.small(0, tier == "thorough" ? (cfg.chance(0.05) ? 1000 : 120) : 30);
-        p.cfg.set("dlt", dlt).set("writer", pw ? "pw" : "ref").set("bufsz", bufs[cfg.below(6)]).set("wkind", (int64_t)cfg.below(4)).setu("shortseed", root.fork("short").next());
+        p.cfg.set("dlt", dlt).set("writer", pw ? "pw" : "ref").set("bufsz", bufs[cfg.below(6)]).set("wkind", (int64_t)cfg.below(5)).setu("shortseed", root.fork("short").next());
         int64_t clock = 1500000000LL * 1000000 + (int64_t)cfg.below(1000000000000LL);
         bool arbitrary = !pw && cfg.chance(0.6);
         for (size_t i = 0; i < nframes; ++i) {
@@ -121,6 +121,10 @@ struct DiskEngine : Engine {
                 std::unique_ptr<PDU> cl(pdu->clone()); PDU::serialization_type ser; try { ser = cl->serialize(); } catch (std::exception&) { st.inc("probe.parsed_frame_not_serializable"); continue; }
                 Written w; w.sec = sec; w.usec = usec; w.bytes.assign(ser.begin(), ser.end()); w.len = (uint32_t)w.bytes.size();
                 if (wkind == 0) { Packet pk(pdu.release(), Timestamp(std::chrono::microseconds((int64_t)sec * 1000000 + usec)), Packet::own_pdu()); writer->write(pk); }
+                else if (wkind == 4) {   // a Packet stamped by the (simulated) clock at construction, written later
+                    sim::g_sim_now_us = (int64_t)sec * 1000000 + usec; sim::g_sim_tick_us = 0; Packet pk(*pdu); sim::g_sim_now_us = -1; st.inc("probe.clock_stamped_packet");
+                    if ((uint64_t)pk.timestamp().seconds() != sec || (uint64_t)pk.timestamp().microseconds() != usec) return Verdict::bad("disk:packet-clock-stamp", fmt("Packet(pdu) built at %u.%06u carries timestamp %llu.%06llu", (unsigned)sec, (unsigned)usec, (unsigned long long)pk.timestamp().seconds(), (unsigned long long)pk.timestamp().microseconds()));
+                    writer->write(pk); }
                 else {   // the clock-stamped overloads: write(PDU&), write(T&) through a pointer, write(range)
                     sim::g_sim_now_us = (int64_t)sec * 1000000 + usec; sim::g_sim_tick_us = 0;
                     if (wkind == 1) writer->write(*pdu); else if (wkind == 2) { PDU* raw = pdu.get(); writer->write(raw); } else { std::vector<PDU*> one(1, pdu.get()); writer->write(one.begin(), one.end()); }
